@@ -22,7 +22,7 @@ ASSUMPTIONS = [
 NSHARDS = {"quick": 16, "thorough": 16}
 N_CASES = {"quick": 260, "thorough": 50000}
 N_SIM = {"quick": 12, "thorough": 1500}
-REQUIRE = {"scale:script_with_more_than_1000_exits_on_one_pool": 1, "kill_pool_level": 1000, "ticks_with_more_than_8_pool_level_kills": 10, "ticks_with_pool_level_victims": 400, "ticks_with_multiple_victims": 50,
+REQUIRE = {"kill_pool_level_in_a_tick_with_a_suspension": 10, "scale:script_with_more_than_1000_exits_on_one_pool": 1, "kill_pool_level": 1000, "ticks_with_more_than_8_pool_level_kills": 10, "ticks_with_pool_level_victims": 400, "ticks_with_multiple_victims": 50,
            "ticks_usage_order_differs_from_score_order": 50, "cases_with_ties": 20, "sim_kills_pool_level": 20}
 
 
@@ -106,6 +106,12 @@ def cases(tier, seed, shard, nshards):
         yield long_case(rng, 600 if tier == "quick" else 1500)
     for i in range(N_CASES[tier]):
         yield make_case(rng, i)
+    for i in range(max(20, N_CASES[tier] // 10)):
+        # overcommitted pools *with suspensions*: containers that are being written out no longer count towards
+        # the pool's usage - neither as trigger nor as stop condition of the killer
+        yield _exec.mix_case(rng, 7 * 10 ** 5 + i, steps=rng.choice([40, 80]), p_bad=0.0, p_suspend=rng.choice([0.5, 1.0]),
+                             mem_heavy=True, p_unready=0.0, multi=True, overcommit=True, npipes=rng.randint(4, 12),
+                             nops=rng.choice([2, 3, 4]), tps=rng.choice([1, 2, 5, 10, 100]))
     for i in range(N_SIM[tier]):
         yield _sim.random_sim_case(rng, small=True, algos=("overbook",), mem_levels=[0.15, 0.3, 0.45, 0.6, 0.9],
                                    workload="script")
@@ -120,7 +126,8 @@ def run_case(case, mon):
         _sim.run_sim_case(case, mon, ID)
         return
     from ..execworld import World
-    w, mine = _exec.run_exec_case(case, mon, ID)
+    w, mine = _exec.run_exec_case(case, mon, ID, driver=_exec.mix_driver(case) if case.get("_adaptive_pending") else None,
+                                  max_steps=case.get("driver", {}).get("steps", 60))
     # evidence about the judged ticks (from the model's own bookkeeping)
     by_step = {}
     for mc in w.containers:
